@@ -436,10 +436,9 @@ class QuadtreeGetIndexOf:
         B, n = _b.fun, to_z3(_b.shape[0])
         t, k = z3.Int('t!rq'), z3.Int('k!rq')
         lon, lat = to_real(lons.f((t,))), to_real(lats.f((t,)))
-        W = c.ctx.fresh_fun('some_cell_of_point', z3.IntSort(), z3.IntSort())
         return [z3.ForAll([t], z3.Implies(z3.And(0 <= t, t < to_z3(lons.shape[0])),
-                                          z3.And(0 <= W(t), W(t) < n, lon >= B(W(t), 0), lat >= B(W(t), 1), lon < B(W(t), 2),
-                                                 lat < B(W(t), 3))), patterns=[lons.f((t,))])]
+                                          z3.Exists([k], z3.And(0 <= k, k < n, lon >= B(k, 0), lat >= B(k, 1), lon < B(k, 2), lat < B(k, 3)))),
+                          patterns=[lons.f((t,))])]
 
     def ensures(c, r, self, lons, lats, _b):
         B, n, m = _b.fun, to_z3(_b.shape[0]), to_z3(lons.shape[0])
@@ -453,3 +452,38 @@ class QuadtreeGetIndexOf:
             z3.And(0 <= t, t < m), z3.And(0 <= ri, ri < n, contains(ri)))
         yield 'it is the first such cell (the unique one for disjoint cells)', z3.Implies(
             z3.And(0 <= t, t < m, 0 <= k, k < ri), z3.Not(contains(k)))
+
+
+# ---- modular use of QuadtreeGrid2D.get_index_of (gridding a catalog on a quadtree region, C03)
+def _qgio_result(c, self, lons, lats, _b=None):
+    r = c.L.fresh_arr('quadcell', (lons.shape[0],), 'int64')
+    return r
+
+
+_qgio_ensures_prove = QuadtreeGetIndexOf.ensures
+
+
+def _qgio_ensures(c, r, self, lons, lats, _b=None):
+    bounds = _b if _b is not None else self.fields['bounds']
+    if c.mode != 'assume':
+        return _qgio_ensures_prove(c, r, self, lons, lats, bounds)
+    B, n, m = bounds.fun, to_z3(bounds.shape[0]), to_z3(lons.shape[0])
+    t, k = z3.Int('t!qq'), z3.Int('k!qq')
+    lon, lat = to_real(lons.f((t,))), to_real(lats.f((t,)))
+    ri = to_z3(r.f((t,)))
+    contains = lambda kk: z3.And(lon >= B(kk, 0), lat >= B(kk, 1), lon < B(kk, 2), lat < B(kk, 3))
+    return [('cell', z3.ForAll([t], z3.Implies(z3.And(0 <= t, t < m), z3.And(0 <= ri, ri < n, contains(ri))), patterns=[r.f((t,))])),
+            ('first', z3.ForAll([t, k], z3.Implies(z3.And(0 <= t, t < m, 0 <= k, k < ri), z3.Not(contains(k))),
+                                patterns=[z3.MultiPattern(r.f((t,)), B(k, 0))]))]
+
+
+def _qgio_requires(c, self, lons, lats, _b=None):
+    bounds = _b if _b is not None else self.fields['bounds']
+    return QuadtreeGetIndexOf._requires_impl(c, self, lons, lats, bounds)
+
+
+QuadtreeGetIndexOf._requires_impl = staticmethod(QuadtreeGetIndexOf.requires)
+QuadtreeGetIndexOf.requires = staticmethod(_qgio_requires)
+QuadtreeGetIndexOf.ensures = staticmethod(_qgio_ensures)
+QuadtreeGetIndexOf.result = staticmethod(_qgio_result)
+QuadtreeGetIndexOf.accepts = staticmethod(lambda c, self, lons, lats, _b=None: isinstance(lons, Arr) and isinstance(lats, Arr))
